@@ -176,6 +176,12 @@ func newPlugWorld(provider bool, nodes map[string]string, confText string) (*plu
 			w.bindLog = append(w.bindLog, "conflict")
 			return true, nil, apierrors.NewConflict(schema.GroupResource{Resource: "pods"}, b.Name, fmt.Errorf("uid mismatch"))
 		}
+		if pod.Spec.NodeName != "" {
+			// registry/core/pod/storage BindingREST.setPodHostAndAnnotations
+			w.bindLog = append(w.bindLog, "assigned")
+			return true, nil, apierrors.NewConflict(schema.GroupResource{Resource: "pods"}, b.Name,
+				fmt.Errorf("pod %s is already assigned to node %q", b.Name, pod.Spec.NodeName))
+		}
 		pod.Spec.NodeName = b.Target.Name
 		if pod.Annotations == nil {
 			pod.Annotations = map[string]string{}
